@@ -36,7 +36,7 @@ T0_PLUS1 = _dt.fromtimestamp(1_600_000_001, _tz.utc)
 
 warnings.simplefilter('ignore')
 
-FUNCTIONS_ENCODED = ['pgpy.packet.packets.PubKeyV4.fingerprint', 'pgpy.packet.fields.*Pub.publen / *Priv.publen', 'pgpy.packet.packets.PubKeyV4.__bytearray__',
+FUNCTIONS_ENCODED = ['pgpy.pgp.PGPKey._sign (issuer subpackets)', 'pgpy.pgp.PGPKey.encrypt (recipient key id)', 'pgpy.packet.fields.OpaquePubKey', 'pgpy.packet.packets.PubKeyV4.fingerprint', 'pgpy.packet.fields.*Pub.publen / *Priv.publen', 'pgpy.packet.packets.PubKeyV4.__bytearray__',
                      'pgpy.packet.packets.PrivKeyV4.pubkey', 'pgpy.packet.packets.PubKeyV4.parse', 'pgpy.packet.packets.PrivKeyV4.parse',
                      'pgpy.types.Fingerprint.__new__ / keyid / shortid / __eq__ / __hash__']
 STUBS = ['SHA-1 (hashlib in pgpy.packet.packets) -> recorder: the harness compares the octets FED to the hash with 99 || len2 || exported public body']
@@ -232,7 +232,10 @@ def fpr_timezone(zi: int, si: int, n0: int, e0: int) -> bool:
     pk.keymaterial.n = MPI(n0 * 2 ** 24 + 0x070903)
     pk.keymaterial.e = MPI(e0)
     if zone is None:
-        pk.created = datetime.fromtimestamp(stamp, timezone.utc).replace(tzinfo=None)        # naive: PGPy takes it as UTC (with a warning); the process zone is not UTC
+        try:
+            pk.created = datetime.fromtimestamp(stamp, timezone.utc).replace(tzinfo=None)    # naive: PGPy takes it as UTC (with a warning); the process zone is not UTC
+        except (TypeError, ValueError):
+            return True                                                                    # (refusing naive values would be fine, too)
     else:
         pk.created = datetime.fromtimestamp(stamp, zone)
     pk.update_hlen()
